@@ -441,6 +441,25 @@ func c01Shapes(c *vlib.Ctx) {
 			vs = append(vs, cp.LongRepeats(r, seed, c.Pick(3, 16), c.Pick(16384, 65536))...)
 			vs = append(vs, cp.TextVariants(seed, c.Pick(600, 4000))...)
 			vs = append(vs, cp.BigStretch(seed)...)
+			if si < c.Pick(2, 6) {
+				// every prefix with one of its last bytes a little smaller or larger: a length or count close to the end of
+				// the input that makes the last element end exactly at, or one byte short of, the end of the data - where a
+				// renderer that trusts the length reads past what was captured
+				lim := min(len(seed), c.Pick(64, 400))
+				for n := 2; n <= lim; n++ {
+					for back := 1; back <= 5 && back <= n; back++ {
+						for _, d := range []int{-1, 1} {
+							v := int(seed[n-back]) + d
+							if v < 0 || v > 255 {
+								continue
+							}
+							b := append(make([]byte, 0, n), seed[:n]...)
+							b[n-back] = byte(v)
+							vs = append(vs, b)
+						}
+					}
+				}
+			}
 			for _, b := range vs {
 				c01Light(c, r, t, b)
 			}
